@@ -25,6 +25,8 @@ func runVestMachine(t *rapid.T, on ...string) *vestMachine {
 	if m.v.AuthzEvery > 0 {
 		m.note("every %d. message of the custom modules is submitted by a grantee through x/authz", m.v.AuthzEvery)
 	}
+	m.v.Tx = DrawTxMode(t)
+	m.v.Tx.Strict = m.on["C05"]
 	if rapid.IntRange(0, 2).Draw(t, "govOwnsPools") == 0 {
 		// the governance module account holds coins and may own pools (module-to-module transfer: no
 		// assumption about which addresses the bank lets receive coins)
@@ -62,6 +64,7 @@ func (m *vestMachine) commonClasses() (cl []string) {
 	if m.typesRemoved > 0 {
 		cl = append(cl, "vesting_type_removed_while_pools_name_it")
 	}
+	cl = append(cl, m.v.TxClasses()...)
 	return cl
 }
 
